@@ -50,6 +50,7 @@ pub struct HookStats {
     pub cuts_multi: u64,
     pub cuts_same_slot: u64,
     pub aux_mismatch: u64,
+    pub neg_lookaround_fails: u64,
     pub shadow_checks: u64,
     pub shadow_faults: u64,
     pub first_fault: Option<String>,
@@ -69,6 +70,7 @@ impl HookStats {
         self.cuts_multi += o.cuts_multi;
         self.cuts_same_slot += o.cuts_same_slot;
         self.aux_mismatch += o.aux_mismatch;
+        self.neg_lookaround_fails += o.neg_lookaround_fails;
         self.shadow_checks += o.shadow_checks;
         self.shadow_faults += o.shadow_faults;
         if self.first_fault.is_none() {
@@ -79,7 +81,7 @@ impl HookStats {
         json!({"hooks_enabled": HOOKS, "vm_runs": self.runs, "insns": self.insns, "backtracks": self.backtracks, "pushes": self.pushes,
             "pops": self.pops, "peak_branch_stack": self.peak_branch_stack, "peak_oldsave": self.peak_oldsave,
             "delegate_calls": self.delegate_calls, "aux_pushes": self.aux_pushes, "cuts": self.cuts, "cuts_multi": self.cuts_multi,
-            "cuts_same_slot": self.cuts_same_slot, "aux_mismatch": self.aux_mismatch, "shadow_checks": self.shadow_checks,
+            "cuts_same_slot": self.cuts_same_slot, "aux_mismatch": self.aux_mismatch, "negative_lookaround_failures_checked": self.neg_lookaround_fails, "shadow_checks": self.shadow_checks,
             "shadow_faults": self.shadow_faults})
     }
 }
@@ -115,6 +117,7 @@ pub fn hook_take() -> HookStats {
         cuts_multi: s.cuts_multi,
         cuts_same_slot: s.cuts_same_slot,
         aux_mismatch: s.aux_mismatch,
+        neg_lookaround_fails: s.neg_lookaround_fails,
         shadow_checks: s.shadow_checks,
         shadow_faults: s.shadow_faults,
         first_fault: s.first_fault,
@@ -438,6 +441,15 @@ impl Acc {
     }
 }
 
+static PROCESS_START: std::sync::OnceLock<Instant> = std::sync::OnceLock::new();
+/// true once the wall-clock budget of this process (VERIF_TIME_BUDGET seconds, default 1500) is
+/// used up; long inner loops poll it so that a crawling tree cannot hold a check for hours
+pub fn over_budget() -> bool {
+    let t0 = *PROCESS_START.get_or_init(Instant::now);
+    let budget: u64 = std::env::var("VERIF_TIME_BUDGET").ok().and_then(|s| s.parse().ok()).unwrap_or(1500);
+    t0.elapsed().as_secs() > budget
+}
+
 /// Run `f(index, item, acc)` over all items on NTHREADS worker threads (dynamic scheduling).
 pub fn par_run<T: Sync>(items: &[T], shadow: bool, step_cap: Option<u64>, f: impl Fn(usize, &T, &mut Acc) + Sync) -> Acc {
     let next = AtomicUsize::new(0);
@@ -465,11 +477,15 @@ pub fn par_run<T: Sync>(items: &[T], shadow: bool, step_cap: Option<u64>, f: imp
                             acc.count("work-items-skipped-after-200-violations-in-one-worker");
                             continue;
                         }
-                        if t0.elapsed().as_secs() > budget_s {
+                        if t0.elapsed().as_secs() > budget_s || over_budget() {
                             acc.count("work-items-skipped:time-budget-exhausted");
                             continue;
                         }
                         for i in start..(start + chunk).min(items.len()) {
+                            if over_budget() || acc.n_violations >= 200 {
+                                acc.count(if acc.n_violations >= 200 { "work-items-skipped-after-200-violations-in-one-worker" } else { "work-items-skipped:time-budget-exhausted" });
+                                continue;
+                            }
                             f(i, &items[i], &mut acc);
                         }
                     }
